@@ -2261,93 +2261,132 @@ func c03WrapDetected(c *Ctx, p *Prog) {
 // (C05/R10): the -N form is returned under no other condition than "this is /gomaxprocs", "there is a part" and "it
 // begins with the dash".
 func c05AbsentAfterScan(c *Ctx, p *Prog) {
-	fn := p.Fn("benchproc", "extractNamePart")
-	if fn == nil {
-		c.Undecided("C05/R9", "anchor:extractNamePart", "", "not found")
-		return
+	// the lookup by role: the functions of benchproc that split a name into its parts, and the helpers they call
+	var cands []*ssa.Function
+	seenF := map[*ssa.Function]bool{}
+	callsParts := func(f *ssa.Function) bool {
+		return len(callsIn(f, rp("benchfmt"), "Name", "Parts")) > 0
 	}
-	site := p.pos(fn.Pos())
-	loops := naturalLoops(fn)
-	bad, nNil := "", 0
-	for _, b := range fn.Blocks {
-		ret, ok := b.Instrs[len(b.Instrs)-1].(*ssa.Return)
-		if !ok {
-			continue
+	for _, f := range p.Funcs("benchproc") {
+		if f.Blocks != nil && callsParts(f) && !seenF[f] {
+			seenF[f] = true
+			cands = append(cands, f)
 		}
-		k, isK := retVal(ret, 0).(*ssa.Const)
-		if !isK || !k.IsNil() {
-			continue
-		}
-		nNil++
-		after := false
-		for _, lp := range loops {
-			if lp.Header.Dominates(b) && !lp.Blocks[b] {
-				after = true
+	}
+	nLookup := len(cands)
+	for _, f := range append([]*ssa.Function{}, cands...) {
+		eachInstr(f, func(_ *ssa.BasicBlock, in ssa.Instruction) {
+			if call, ok := in.(*ssa.Call); ok {
+				if h := call.Call.StaticCallee(); h != nil && h.Pkg == f.Pkg && h.Blocks != nil && !seenF[h] {
+					seenF[h] = true
+					cands = append(cands, h)
+				}
 			}
-		}
-		if !after {
-			bad = p.pos(ret.Pos())
-		}
+		})
 	}
-	c.Check(bad == "" && nNil > 0 && len(loops) > 0, "C05/R9", "extractNamePart:absent only after the scan", site, "every nil return follows the loop over the parts",
-		"the lookup returns \"absent\" (at "+bad+") without having gone through the parts: a test on the name as a whole decides instead, and names it misjudges (an empty base, so that the key starts at offset 0) lose the key")
-	// the -N return: a slice of the last part from 1
-	n := 0
-	for _, b := range fn.Blocks {
-		ret, ok := b.Instrs[len(b.Instrs)-1].(*ssa.Return)
-		if !ok {
+	c.Floor("C05/R9", "functions of benchproc that split a name into parts", nLookup, 1)
+	// R9: "absent" is never decided from the name as a whole
+	nNil := 0
+	for _, f := range cands[:nLookup] {
+		if f.Signature.Results().Len() == 0 {
 			continue
 		}
-		sl, ok := retVal(ret, 0).(*ssa.Slice)
-		if !ok || sl.Low == nil {
+		if _, isSl := f.Signature.Results().At(0).Type().Underlying().(*types.Slice); !isSl {
 			continue
 		}
-		if k, ok := constInt(sl.Low); !ok || k != 1 {
-			continue
-		}
-		n++
-		extra := ""
-		for _, f := range factsAt(b) {
-			okCond := false
-			switch x := f.Cond.(type) {
-			case *ssa.Parameter:
-				okCond = isBoolean(x.Type())
-			case *ssa.BinOp:
-				// len(parts) > 0 (any comparison of a length with a constant), or the first byte compared with '-'
-				isLen := func(v ssa.Value) bool {
+		for _, b := range f.Blocks {
+			ret, ok := b.Instrs[len(b.Instrs)-1].(*ssa.Return)
+			if !ok {
+				continue
+			}
+			k, isK := retVal(ret, 0).(*ssa.Const)
+			if !isK || !k.IsNil() {
+				continue
+			}
+			nNil++
+			bad := ""
+			for _, ft := range factsAt(b) {
+				if reaches(ft.Cond, func(v ssa.Value) bool {
 					cl, ok := v.(*ssa.Call)
 					if !ok {
 						return false
 					}
-					bi, ok := cl.Call.Value.(*ssa.Builtin)
-					return ok && bi.Name() == "len"
+					return objIs(calleeObj(&cl.Call), rp("benchfmt"), "Name", "Full") || objIs(calleeObj(&cl.Call), rp("benchfmt"), "Name", "String")
+				}) {
+					bad = p.pos(ft.If.Pos())
+					if bad == "" {
+						bad = valStr(ft.Cond)
+					}
 				}
-				if isLen(x.X) || isLen(x.Y) {
-					okCond = true
-				}
-				for _, side := range [][2]ssa.Value{{x.X, x.Y}, {x.Y, x.X}} {
-					if k, ok := constInt(side[1]); ok && k == '-' {
-						if ld, ok := side[0].(*ssa.UnOp); ok {
-							if ia, ok := ld.X.(*ssa.IndexAddr); ok {
-								if i0, ok := constInt(ia.Index); ok && i0 == 0 {
-									okCond = true
+			}
+			c.Check(bad == "", "C05/R9", fmt.Sprintf("%s:absent#%d decided from the parts", fnName(f), nNil), p.pos(ret.Pos()), "no condition on the name as a whole",
+				"the lookup answers \"absent\" under a condition computed from the whole name (at "+bad+"), not from its parts: names the shortcut misjudges (an empty base, so that the key starts at offset 0) lose the key")
+		}
+	}
+	// R10: the -N return: a slice from 1 of a part
+	n := 0
+	for _, g := range cands {
+		for _, b := range g.Blocks {
+			ret, ok := b.Instrs[len(b.Instrs)-1].(*ssa.Return)
+			if !ok || len(ret.Results) == 0 {
+				continue
+			}
+			sl, ok := retVal(ret, 0).(*ssa.Slice)
+			if !ok || sl.Low == nil || sl.High != nil {
+				continue
+			}
+			if k, ok := constInt(sl.Low); !ok || k != 1 {
+				continue
+			}
+			n++
+			extra := ""
+			for _, f := range factsAt(b) {
+				okCond := false
+				switch x := f.Cond.(type) {
+				case *ssa.Parameter:
+					okCond = isBoolean(x.Type())
+				case *ssa.UnOp:
+					// a captured or stored flag
+					okCond = isBoolean(x.Type())
+				case *ssa.BinOp:
+					isLen := func(v ssa.Value) bool {
+						cl, ok := v.(*ssa.Call)
+						if !ok {
+							return false
+						}
+						bi, ok := cl.Call.Value.(*ssa.Builtin)
+						return ok && bi.Name() == "len"
+					}
+					if isLen(x.X) || isLen(x.Y) {
+						okCond = true
+					}
+					for _, side := range [][2]ssa.Value{{x.X, x.Y}, {x.Y, x.X}} {
+						if k, ok := constInt(side[1]); ok && k == '-' {
+							if ld, ok := side[0].(*ssa.UnOp); ok {
+								if ia, ok := ld.X.(*ssa.IndexAddr); ok {
+									if i0, ok := constInt(ia.Index); ok && i0 == 0 {
+										okCond = true
+									}
 								}
 							}
 						}
 					}
 				}
-			}
-			if !okCond {
-				extra = p.pos(f.If.Pos())
-				if extra == "" {
-					extra = valStr(f.Cond)
+				if !okCond {
+					extra = p.pos(f.If.Pos())
+					if extra == "" {
+						extra = valStr(f.Cond)
+					}
 				}
 			}
+			c.Check(extra == "", "C05/R10", fmt.Sprintf("%s:-N form#%d", fnName(g), n), p.pos(ret.Pos()), "returned whenever the last part begins with the dash",
+				"the -N form is returned only under a further condition (at "+extra+"): Name.Parts still splits the suffix off, so for the names that fail the extra test (-0, -08) /gomaxprocs is empty although the name has the part")
 		}
-		c.Check(extra == "", "C05/R10", fmt.Sprintf("extractNamePart:-N form#%d", n), p.pos(ret.Pos()), "returned whenever the last part begins with the dash",
-			"the -N form is returned only under a further condition (at "+extra+"): Name.Parts still splits the suffix off, so for the names that fail the extra test (-0, -08) /gomaxprocs is empty although the name has the part")
 	}
-	c.Floor("C05/R10", "returns of the -N form", n, 1)
+	if n == 0 {
+		c.OK("C05/R10", "-N form", "", "no return of the shape part[1:] in the lookup or its helpers: no claim")
+		c.Note("C05/R10 makes no claim: the -N form is not returned as a slice from 1 any more")
+	}
 }
 
 // c07EveryWordQuoted (C07/R20): a projection field prints so that it reads back: in Field.String no element of the
